@@ -174,7 +174,9 @@ func RunCheck(id string, opts *Options) (*Report, int) {
 				}
 			}
 			funcGoals[run.FnName] = n
-			if n == 0 && len(t.C.Clauses) > 0 {
+			if n == 0 && len(t.C.Clauses) > 0 && len(run.Unsupp) == 0 {
+				// (a function that left the supported subset already has its failed
+				// contract-applicable obligation: a lost proof, not a broken check)
 				rep.Broken = append(rep.Broken, run.FnName+": function under contract generated zero obligations")
 			}
 		}
